@@ -36,7 +36,7 @@ func NewCOM(data []byte) (*COM, error) {
 		return nil, fmt.Errorf("[NewCOM] error: %w", err)
 	}
 
-	rootNode := nodes.NodeByTag(COMTag)
+	rootNode := lookupRootNode(nodes, COMTag)
 
 	if !rootNode.IsValidNode() {
 		return nil, fmt.Errorf("root node (%x) missing", COMTag)
